@@ -17,17 +17,18 @@ Definition c03_weights (S : SOps) (n : nat) (alpha beta kappa : T S)
   let O := c03_O S (fun _ A => A) (fun _ A => A) in
   let w := @ut_weights O n alpha beta kappa in (w_mean w, w_cov w, w_c w).
 
-(* the input mixture, possibly augmented with a noise block first *)
-Definition c03_input (S : SOps) (sq eg : nat -> lmx S -> lmx S) (L : layout) (aug : option (nat * lmx S))
+(* the input mixture, after the given sequence of augmentWithNoise calls *)
+Fixpoint c03_input (S : SOps) (sq eg : nat -> lmx S -> lmx S) (L : layout) (augs : list (nat * lmx S))
            (comps : list (lmx S * lmx S)) : layout * list (lmx S * lmx S) :=
   let O := c03_O S sq eg in
-  match aug with
-  | None => (L, comps)
-  | Some (q, Q) => (l_add_noise L q, map (@augment_comp O (l_dim L) (l_dcov L) q Q) comps)
+  match augs with
+  | [] => (L, comps)
+  | (q, Q) :: rest =>
+      c03_input S sq eg (l_add_noise L q) rest (map (@augment_comp O (l_dim L) (l_dcov L) q Q) comps)
   end.
 
 (* sigma_point(state, c) *)
-Definition c03_sigma (S : SOps) (sq eg : nat -> lmx S -> lmx S) (L : layout) (aug : option (nat * lmx S))
+Definition c03_sigma (S : SOps) (sq eg : nat -> lmx S -> lmx S) (L : layout) (aug : list (nat * lmx S))
            (c : T S) (comps : list (lmx S * lmx S)) : list (lmx S) :=
   let O := c03_O S sq eg in
   let '(L', cs) := c03_input S sq eg L aug comps in
@@ -36,7 +37,7 @@ Definition c03_sigma (S : SOps) (sq eg : nat -> lmx S -> lmx S) (L : layout) (au
 (* unscented_transform: overload 0 FunctionEvaluation, 1 StateModel, 2 AdditiveStateModel,
    3 MeasurementModel, 4 AdditiveMeasurementModel; f = Some (A, b): x -> A x + b on every
    column, None: the evaluation fails; N the additive noise covariance (overloads 2, 4) *)
-Definition c03_ut (S : SOps) (sq eg : nat -> lmx S -> lmx S) (L Lout : layout) (aug : option (nat * lmx S))
+Definition c03_ut (S : SOps) (sq eg : nat -> lmx S -> lmx S) (L Lout : layout) (aug : list (nat * lmx S))
            (wn : nat) (alpha beta kappa : T S) (comps : list (lmx S * lmx S))
            (f : option (lmx S * lmx S)) (overload : nat) (N : lmx S)
   : option (list (lmx S * lmx S * lmx S) * list (T S)) :=
